@@ -2,6 +2,7 @@
 TLA+ specifications define as well.  Rows are (time, endtime, v)."""
 import numpy as np
 import strax
+from immutabledict import immutabledict
 
 ROW = [(("start time", "time"), np.int64), (("exclusive end time", "endtime"), np.int64),
        (("payload", "v"), np.int64)]
@@ -113,3 +114,111 @@ def rowmap(name, dep, kind=None, fail_at=None, mul=3, add=1, save_when=strax.Sav
 
 def expected_map(rows, mul=3, add=1):
     return [[r[0], r[1], mul * r[2] + add] for r in rows]
+
+
+def row_dtype(vname="v"):
+    return [(("start time", "time"), np.int64), (("exclusive end time", "endtime"), np.int64),
+            ((f"payload {vname}", vname), np.int64)]
+
+
+def samekind_map(name, dep, kind, vname, mul=1, add=0, fail_at=None, save_when=strax.SaveWhen.ALWAYS, rec=None,
+                 step_hook=None, rechunk_on_save=True):
+    """Row-wise map producing a data type of a shared data kind with its own payload field (for same-kind merging)."""
+    state = dict(i=0)
+
+    class SK(strax.Plugin):
+        parallel = False
+
+        def compute(self, **kw):
+            (x,) = [v for k, v in kw.items() if k not in ("start", "end", "chunk_i")]
+            i = state["i"]
+            state["i"] += 1
+            if step_hook is not None:
+                step_hook(name, i)
+            if rec is not None:
+                rec.add(name, i, len(x))
+            if fail_at is not None and i == fail_at:
+                raise HarnessFailure(f"{name} fails at chunk {i}")
+            r = np.zeros(len(x), dtype=np.dtype(row_dtype(vname)))
+            r["time"] = x["time"]
+            r["endtime"] = strax.endtime(x)
+            r[vname] = mul * x["v"] + add
+            return r
+
+    SK.__name__ = "SK_" + name
+    SK.provides = (name,)
+    SK.depends_on = (dep,)
+    SK.data_kind = kind
+    SK.dtype = row_dtype(vname)
+    SK.save_when = save_when
+    SK.rechunk_on_save = rechunk_on_save
+    return SK
+
+
+def combine(name, deps, vnames, fail_at=None, save_when=strax.SaveWhen.ALWAYS, rec=None, step_hook=None,
+            rechunk_on_save=True):
+    """Depends on several same-kind data types (merged by strax): v = sum of their payload fields."""
+    state = dict(i=0)
+
+    class Comb(strax.Plugin):
+        dtype = ROW
+        parallel = False
+
+        def compute(self, **kw):
+            (x,) = [v for k, v in kw.items() if k not in ("start", "end", "chunk_i")]
+            i = state["i"]
+            state["i"] += 1
+            if step_hook is not None:
+                step_hook(name, i)
+            if rec is not None:
+                rec.add(name, i, len(x))
+            if fail_at is not None and i == fail_at:
+                raise HarnessFailure(f"{name} fails at chunk {i}")
+            r = np.zeros(len(x), dtype=ROWDT)
+            r["time"] = x["time"]
+            r["endtime"] = strax.endtime(x)
+            r["v"] = sum(x[vn] for vn in vnames)
+            return r
+
+    Comb.__name__ = "Comb_" + name
+    Comb.provides = (name,)
+    Comb.depends_on = tuple(deps)
+    Comb.data_kind = name
+    Comb.save_when = save_when
+    Comb.rechunk_on_save = rechunk_on_save
+    return Comb
+
+
+def multi(names, dep, fail_at=None, save_when=None, rec=None, step_hook=None, rechunk_on_save=False):
+    """Multi-output plugin: names[0] = row-wise map (v' = 2v), names[1] = rows with odd v only (v' = v + 10)."""
+    state = dict(i=0)
+    a, b = names
+
+    class Multi(strax.Plugin):
+        parallel = False
+
+        def compute(self, **kw):
+            (x,) = [v for k, v in kw.items() if k not in ("start", "end", "chunk_i")]
+            i = state["i"]
+            state["i"] += 1
+            if step_hook is not None:
+                step_hook(a, i)
+            if rec is not None:
+                rec.add(a, i, len(x))
+            if fail_at is not None and i == fail_at:
+                raise HarnessFailure(f"{a}/{b} fails at chunk {i}")
+            ra = np.zeros(len(x), dtype=ROWDT)
+            ra["time"], ra["endtime"], ra["v"] = x["time"], strax.endtime(x), 2 * x["v"]
+            y = x[x["v"] % 2 == 1]
+            rb = np.zeros(len(y), dtype=ROWDT)
+            rb["time"], rb["endtime"], rb["v"] = y["time"], strax.endtime(y), y["v"] + 10
+            return {a: ra, b: rb}
+
+    Multi.__name__ = "Multi_" + a
+    Multi.provides = (a, b)
+    Multi.depends_on = (dep,)
+    Multi.data_kind = immutabledict({a: a, b: b})
+    Multi.dtype = {a: ROW, b: ROW}
+    Multi.save_when = immutabledict(save_when or {a: strax.SaveWhen.ALWAYS, b: strax.SaveWhen.ALWAYS})
+    Multi.rechunk_on_save = rechunk_on_save
+    return Multi
